@@ -36,6 +36,7 @@ struct ThreadDriver : vrt::Driver {
   std::optional<EpochGuard> guard[kMaxT];
   const std::vector<size_t> *list[kMaxT] = {};
   int barrier_count[8] = {};
+  int turn = 0;
   bool want_mgr = false;
 
   static ThreadDriver *self;
@@ -133,6 +134,12 @@ struct ThreadDriver : vrt::Driver {
       vrt::NoteWrite();
       vrt::BlockUntil([&] { return barrier_count[b] >= need; });
       vrt::Log("{\"e\":\"bar\",\"t\":%d,\"k\":%d}", t, b);
+    } else if (k == "TURN") {
+      int want = atoi(op.f[1].c_str());
+      vrt::BlockUntil([&] { return turn == want; });
+    } else if (k == "NEXT") {
+      ++turn;
+      vrt::NoteWrite();
     } else if (k == "G" || k == "GL") {
       vrt::Log("{\"e\":\"gcall\",\"t\":%d}", t);
       if (k == "G") {
